@@ -1,4 +1,5 @@
 import IncanModel.Lemmas.Ladder
+import IncanModel.Syntax.Literals
 /-
 C08 — Formatting never changes what a program means: the expression ladder.
 
@@ -141,3 +142,194 @@ example : parse 40 0 [.atom 1, .kwNot, .kwIn, .atom 2, .kwAnd, .kwNot, .atom 3]
     = some (.bin .and_ (.bin .notIn (.atom 1) (.atom 2)) (.pre .not_ (.atom 3)), []) := by decide
 
 end Incan.Ladder
+
+/-! ### Literals: what the formatter writes is read back as the same value -/
+namespace Incan.Literals
+
+theorem scanStr_nil : scanStr [] = none := by rw [scanStr.eq_def]
+
+theorem scanStr_cons (c : Char) (rest : List Char) : scanStr (c :: rest) =
+    (if c = '"' then some ([], rest)
+    else if c = '\n' then none
+    else if c = '\\' then
+      match rest with
+      | [] => none
+      | e :: rest' =>
+        if e = 'n' then pushC '\n' (scanStr rest')
+        else if e = 't' then pushC '\t' (scanStr rest')
+        else if e = 'r' then pushC '\r' (scanStr rest')
+        else if e = '\\' then pushC '\\' (scanStr rest')
+        else if e = '"' then pushC '"' (scanStr rest')
+        else pushC '\\' (pushC e (scanStr rest'))
+    else pushC c (scanStr rest)) := by
+  conv => lhs; rw [scanStr.eq_def]
+  rfl
+
+theorem scanBytes_cons (c : Nat) (rest : List Nat) : scanBytes (c :: rest) =
+    (if c = 34 then some ([], rest)
+    else if c = 10 then none
+    else if c = 92 then
+      match rest with
+      | [] => none
+      | e :: rest' =>
+        if e = 110 then pushB 10 (scanBytes rest')
+        else if e = 116 then pushB 9 (scanBytes rest')
+        else if e = 114 then pushB 13 (scanBytes rest')
+        else if e = 92 then pushB 92 (scanBytes rest')
+        else if e = 48 then pushB 0 (scanBytes rest')
+        else if e = 120 then
+          match rest' with
+          | h :: l :: rest'' =>
+            (match hexPair h l with
+            | some b => pushB b (scanBytes rest'')
+            | none => none)
+          | _ => none
+        else if e = 34 then pushB 34 (scanBytes rest')
+        else pushB 92 (pushB (e % 256) (scanBytes rest'))
+    else if c < 128 then pushB c (scanBytes rest)
+    else none) := by
+  conv => lhs; rw [scanBytes.eq_def]
+  rfl
+
+theorem scanStr_esc (c : Char) (rest : List Char) : scanStr (escChar c ++ rest) = pushC c (scanStr rest) := by
+  unfold escChar
+  by_cases h1 : c = '\n'
+  · subst h1; simp [scanStr_cons]
+  by_cases h2 : c = '\r'
+  · subst h2; simp [scanStr_cons]
+  by_cases h3 : c = '\t'
+  · subst h3; simp [scanStr_cons]
+  by_cases h4 : c = '\\'
+  · subst h4; simp [scanStr_cons]
+  by_cases h5 : c = '"'
+  · subst h5; simp [scanStr_cons]
+  simp only [h1, h2, h3, h4, h5, if_false, List.cons_append, List.nil_append]
+  rw [scanStr_cons]
+  simp [h1, h4, h5]
+
+/-- MAIN (string literals): for every string value `s` and every following text, the lexer reads the formatter's
+`"<escaped s>"` back as exactly `s` and continues right after the closing quote. -/
+theorem string_literal_roundtrip (s tail : List Char) :
+    scanStr (fmtStr s ++ '"' :: tail) = some (s, tail) := by
+  induction s with
+  | nil => simp [fmtStr, scanStr_cons]
+  | cons c cs ih =>
+    have : fmtStr (c :: cs) ++ '"' :: tail = escChar c ++ (fmtStr cs ++ '"' :: tail) := by
+      simp [fmtStr, List.flatMap_cons]
+    rw [this, scanStr_esc, ih]
+    rfl
+
+/-- The first character the formatter writes for a non-empty value is not a bare quote. -/
+theorem escChar_head (c : Char) : ∃ x xs, escChar c = x :: xs ∧ x ≠ '"' := by
+  unfold escChar
+  by_cases h1 : c = '\n'
+  · exact ⟨'\\', ['n'], by simp [h1], by decide⟩
+  by_cases h2 : c = '\r'
+  · exact ⟨'\\', ['r'], by simp [h1, h2], by decide⟩
+  by_cases h3 : c = '\t'
+  · exact ⟨'\\', ['t'], by simp [h1, h2, h3], by decide⟩
+  by_cases h4 : c = '\\'
+  · exact ⟨'\\', ['\\'], by simp [h1, h2, h3, h4], by decide⟩
+  by_cases h5 : c = '"'
+  · exact ⟨'\\', ['"'], by simp [h1, h2, h3, h4, h5], by decide⟩
+  exact ⟨c, [], by simp [h1, h2, h3, h4, h5], h5⟩
+
+/-- The written literal is never mistaken for a triple-quoted one, unless the value is empty and the next
+character of the line is another quote (the formatter never writes a quote right after a literal). -/
+theorem string_literal_lexes (s tail : List Char) (ht : s = [] → tail.head? ≠ some '"') :
+    lexStr ('"' :: (fmtStr s ++ '"' :: tail)) = some (s, tail) := by
+  have hrt := string_literal_roundtrip s tail
+  cases s with
+  | nil =>
+    cases tail with
+    | nil => simp [lexStr, fmtStr, scanStr_cons]
+    | cons t ts =>
+      have hne : t ≠ '"' := by
+        intro h; exact ht rfl (by simp [h])
+      simp only [fmtStr, List.flatMap_nil, List.nil_append]
+      unfold lexStr
+      split
+      · rename_i heq
+        simp only [List.cons.injEq, true_and] at heq
+        exact absurd heq.1 hne
+      · rename_i heq
+        simp only [List.cons.injEq, true_and] at heq
+        subst heq
+        simp [scanStr_cons]
+      · rename_i h2
+        exact absurd rfl (h2 _)
+  | cons c cs =>
+    obtain ⟨x, xs, hx, hxq⟩ := escChar_head c
+    have hshape : fmtStr (c :: cs) ++ '"' :: tail = x :: (xs ++ (fmtStr cs ++ '"' :: tail)) := by
+      simp [fmtStr, List.flatMap_cons, hx]
+    rw [hshape] at hrt ⊢
+    unfold lexStr
+    split
+    · rename_i heq
+      simp only [List.cons.injEq, true_and] at heq
+      exact absurd heq.1 hxq
+    · rename_i heq
+      simp only [List.cons.injEq, true_and] at heq
+      subst heq
+      exact hrt
+    · rename_i h2
+      exact absurd rfl (h2 _)
+
+theorem hexVal_hexDigit (d : Nat) (h : d < 16) : hexVal (hexDigit d) = some d := by
+  unfold hexVal hexDigit
+  by_cases h10 : d < 10
+  · simp only [h10, if_true]
+    rw [if_pos (by omega)]
+    congr 1; omega
+  · simp only [h10, if_false]
+    rw [if_neg (by omega), if_pos (by omega)]
+    congr 1; omega
+
+theorem scanBytes_esc (b : Nat) (hb : b < 256) (rest : List Nat) :
+    scanBytes (escByte b ++ rest) = pushB b (scanBytes rest) := by
+  unfold escByte
+  by_cases h1 : b = 34 ∨ b = 92
+  · rcases h1 with h | h <;> subst h <;> simp [scanBytes_cons]
+  · have h34 : b ≠ 34 := fun h => h1 (Or.inl h)
+    have h92 : b ≠ 92 := fun h => h1 (Or.inr h)
+    simp only [h1, if_false]
+    by_cases h2 : 32 ≤ b ∧ b < 127
+    · simp only [h2, and_self, if_true, List.cons_append, List.nil_append]
+      rw [scanBytes_cons]
+      have h10 : b ≠ 10 := by omega
+      have h128 : b < 128 := by omega
+      simp [h34, h92, h10, h128]
+    · simp only [h2, if_false, List.cons_append, List.nil_append]
+      rw [scanBytes_cons]
+      have hd1 : b / 16 < 16 := by omega
+      have hd2 : b % 16 < 16 := by omega
+      have hne : hexDigit (b / 16) ≠ 43 := by unfold hexDigit; split <;> omega
+      simp only [show (92 : Nat) ≠ 34 by decide, show (92 : Nat) ≠ 10 by decide, if_false, if_true,
+        show (120 : Nat) ≠ 110 by decide, show (120 : Nat) ≠ 116 by decide, show (120 : Nat) ≠ 114 by decide,
+        show (120 : Nat) ≠ 92 by decide, show (120 : Nat) ≠ 48 by decide]
+      simp only [hexPair, hne, if_false, hexVal_hexDigit _ hd1, hexVal_hexDigit _ hd2]
+      have : 16 * (b / 16) + b % 16 = b := by omega
+      rw [this]
+
+/-- MAIN (bytes literals): for every byte string, the lexer reads the formatter's `b"<escaped>"` back as exactly
+those bytes — printable ASCII as itself (the apostrophe included), quote and backslash escaped, the rest `\\xNN`. -/
+theorem bytes_literal_roundtrip (bs tail : List Nat) (hb : ∀ b ∈ bs, b < 256) :
+    scanBytes (fmtBytes bs ++ 34 :: tail) = some (bs, tail) := by
+  induction bs with
+  | nil => simp [fmtBytes, scanBytes_cons]
+  | cons b rest ih =>
+    have : fmtBytes (b :: rest) ++ 34 :: tail = escByte b ++ (fmtBytes rest ++ 34 :: tail) := by
+      simp [fmtBytes, List.flatMap_cons]
+    rw [this, scanBytes_esc b (hb b (by simp)), ih (fun x hx => hb x (by simp [hx]))]
+    rfl
+
+/-- What `std::ascii::escape_default` would add (a backslash before the apostrophe) is not read back: the lexer
+keeps both characters. -/
+theorem apostrophe_must_stay_bare : scanBytes [92, 39, 34] = some ([92, 39], []) := by
+  simp [scanBytes_cons, pushB]
+
+example : fmtBytes [105, 116, 39, 115, 0, 255, 34] = [105, 116, 39, 115, 92, 120, 48, 48, 92, 120, 102, 102, 92, 34] := by decide
+example : scanStr (fmtStr ['a', '"', '\\', '\n', 'é'] ++ ['"', '+']) = some (['a', '"', '\\', '\n', 'é'], ['+']) :=
+  string_literal_roundtrip _ _
+
+end Incan.Literals
